@@ -106,6 +106,12 @@ class ExcelType:
         if isinstance(result, complex):
             # negative base with a fractional exponent
             raise xlerrors.NumExcelError()
+        if isinstance(result, float) and not math.isfinite(result):
+            # numpy scalars (what SIGN or EXP return) warn where Python
+            # floats raise: SIGN(0)^-1 is inf, (EXP(0)-2)^0.5 is nan
+            if base == 0:
+                raise xlerrors.DivZeroExcelError()
+            raise xlerrors.NumExcelError()
         return Number(result)
 
     def __and__(self, other):
